@@ -190,6 +190,29 @@ class C20:
             tab = [[x, l, (1 if mode == 1 else rng.randint(0, 2))] for x in nodes for l in range(nlab)]
             psize = rng.choice([1, 1, 2, nlab, nlab + (1 if i % 17 == 0 else 0)])
             prof = {"labels": list(range(nlab)), "psize": psize, "tab": tab, "alphas": ([] if i % 23 == 0 else [a for a in alphas if a % 100 == 0] or [100])}
+            # time-varying labels (a dictionary instant -> value instead of a value) and label hierarchies (value -> rank).
+            # The instants at which __label_frequency reads a dictionary are `start` and the hop counts 1, 2, ...;
+            # most tables cover them all, one case in four has holes (a hole skips the node or raises KeyError)
+            holes = (i % 4 == 2)
+            span = sorted(set(range(-1, tm + 8)) | {start})
+            stat, dynp, dyn = [], [], []
+            for x in nodes:
+                for l in range(nlab):
+                    if rng.random() < 0.5:
+                        stat.append([x, l, 1 if mode == 1 else rng.randint(0, 2)])
+                    else:
+                        dynp.append([x, l])
+                        for t in span:
+                            if not holes or rng.random() < 0.75:
+                                dyn.append([x, l, t, 1 if mode == 1 else rng.randint(0, 2)])
+            hl = [l for l in range(nlab) if rng.random() < 0.5]
+            htr = []
+            for l in hl:
+                ranks = [0, 1, 2]; rng.shuffle(ranks)
+                for v in (0, 1, 2):
+                    if not (holes and rng.random() < 0.2):
+                        htr.append([l, v, ranks[v]])
+            prof["hier"] = {"hl": hl, "htr": htr, "stat": stat, "dynp": dynp, "dyn": dyn, "holes": holes}
             yield {"cls": 1 if directed else 0, "rem": 1, "ops": ops, "labels": labels, "start": start, "delta": delta, "alphas": alphas, "prof": prof,
                    "ptype": rng.randint(0, 4), "nmap": nmap, "lmap": lmap, "equal": mode == 1, "ids": "int", "src": "rand",
                    "presort": i % 2 == 1}
@@ -220,6 +243,12 @@ class C20:
         pr = case["prof"]
         L.append(("confp 0 %d %d %d %d %d %s %d %s %d %s" % (s, d, pt, pr["psize"], len(pr["labels"]), " ".join(map(str, pr["labels"])),
                   len(pr["alphas"]), " ".join(map(str, pr["alphas"])), len(pr["tab"]), " ".join("%d %d %d" % tuple(x) for x in pr["tab"]))).replace("  ", " "))
+        h = pr["hier"]
+
+        def blk(rows):
+            return " ".join([str(len(rows))] + [" ".join(map(str, r)) for r in rows])
+        L.append(" ".join(["confh 0 %d %d %d %d" % (s, d, pt, pr["psize"]), blk([[l] for l in pr["labels"]]), blk([[a] for a in pr["alphas"]]),
+                           blk([[l] for l in h["hl"]]), blk(h["htr"]), blk(h["stat"]), blk(h["dynp"]), blk(h["dyn"])]))
         return L
 
     @staticmethod
@@ -231,8 +260,9 @@ class C20:
         dump0, conf, sl, dump1, pres1, atrp, sconf = outs[i:i + 7]
         j = i + 7 + 1 + nops + nl + (len(case["nmap"]) if case.get("presort") else 0)
         conf2 = outs[j]
-        per_t = outs[j + 1:-1]
-        confp = outs[-1]
+        per_t = outs[j + 1:-2]
+        confp = outs[-2]
+        confh = outs[-1]
         fails = []
         s, d = case["start"], case["delta"]
         if sl != "ok" or oracles.is_err(dump1):
@@ -295,6 +325,26 @@ class C20:
                             exp = 1.0 if x in reach else 0.0
                             if not approx(v, exp):
                                 fails.append(F("C20.all_equal", node=x, alpha=a, profile=p, expected=exp, got=val))
+        # time-varying labels and hierarchies (model: ConformityH.lean; theorems C20H_result, C20H_errors)
+        if pr["psize"] > len(pr["labels"]) or not pr["alphas"]:
+            if confh != "E:VE":
+                fails.append(F("C20.profile_arguments", where="hierarchies", expected="E:VE", got=confh))
+        elif oracles.is_err(confh):
+            if confh != "E:KeyError":
+                fails.append(F("C20.hier_raised", got=confh))
+        elif confh is None:
+            fails.append(F("C20.none_iff_empty", where="hierarchies", got=confh))
+        else:
+            for a, prof in confh.items():
+                for p, sc in prof.items():
+                    if [x for x, _ in sc] != present:
+                        fails.append(F("C20.nodes", where="hierarchies", profile=p, start=s, expected=present, got=[x for x, _ in sc]))
+                    for x, val in sc:
+                        v = oracles_num(val)
+                        if not (-1 - 1e-9 <= v <= 1 + 1e-9):
+                            fails.append(F("C20.bound", where="hierarchies", node=x, alpha=a, profile=p, got=val))
+                        if case["equal"] and not pr["hier"]["holes"] and not approx(v, 1.0 if x in reach else 0.0):
+                            fails.append(F("C20.all_equal", where="hierarchies", node=x, alpha=a, profile=p, got=val))
         # renaming invariance
         if oracles.is_err(conf2) or conf2 is None:
             fails.append(F("C20.relabel", got=conf2))
